@@ -296,9 +296,12 @@ class Dm1:
             self._dtc_dic_list.append( {'spn': dtc.spn, 'fmi': dtc.fmi, 'oc': dtc.oc } )
 
     def _notify_subscribers(self, sa, timestamp):
+        # what was received, taken once: while a callback runs, a send cycle of this object
+        # (job thread) may put its own lamps and codes into the attributes
+        lamp_status, dtc_dic_list = self._lamp_status, self._dtc_dic_list
         # iterate over a snapshot: a callback may unsubscribe itself
         for callback in list(self._subscribers):
-            callback(sa, self.lamp_status.copy(), self._dtc_dic_list.copy(), timestamp)
+            callback(sa, lamp_status.copy(), dtc_dic_list.copy(), timestamp)
 
 
 class Dm11:
